@@ -227,6 +227,7 @@ inductive Op where
   | remove (sp : RemSpec) (x : Ref)      -- remove remove-if remove-duplicates with their keywords
   | mapcar (f : Fn) (x : Ref)
   | mapcar2 (x y : Ref)                  -- (mapcar '+ x y)
+  | concat (x y : Ref)                   -- (concatenate 'list x y): a fresh list, shares with neither
   | rplaca (x : Ref) (v : Val)           -- also (setf (car x) v)
   | setNth (n : Nat) (x : Ref) (v : Val) -- (setf (nth n x) v), (setf (elt x n) v)
   | rplacd (x y : Ref)
@@ -253,7 +254,7 @@ def Op.listArgs : Op → List Ref
   | .alias x | .cons _ x | .listStar _ _ x | .nthcdr _ x | .last _ x | .member _ _ x | .butlast _ x
   | .subseq _ _ x | .copyList x | .reverse x | .remove _ x | .mapcar _ x | .rplaca x _ | .setNth _ x _
   | .add x _ | .nreverse x | .sort _ _ x | .delete _ x => [x]
-  | .append x y | .rplacd x y | .nconc x y | .mapcar2 x y => [x, y]
+  | .append x y | .rplacd x y | .nconc x y | .mapcar2 x y | .concat x y => [x, y]
 
 /-- `remove` on the cells `as` of the argument, `m` marking the positions to take out: as soon as
     nothing further is to be removed the remaining cells are shared (the language allows the result
@@ -312,6 +313,10 @@ def run (h : Heap) : Op → Except Err (Heap × Ref)
       let as ← chainOf h x
       let bs ← chainOf h y
       .ok (allocList h (vMapcar2 (carsOf h as) (carsOf h bs)) .nil)
+  | .concat x y => do
+      let as ← chainOf h x
+      let bs ← chainOf h y
+      .ok (allocList h (carsOf h as ++ carsOf h bs) .nil)
   | .rplaca x v => do
       let as ← chainOf h x
       match as with
@@ -389,6 +394,7 @@ def valueOf (op : Op) (xs ys : List Val) : Except Err (List Val) :=
   | .remove sp _ => .ok (vRemove sp xs)
   | .mapcar f _ => .ok (vMapcar f xs)
   | .mapcar2 .. => .ok (vMapcar2 xs ys)
+  | .concat .. => .ok (xs ++ ys)
   | .rplaca _ v => vRplaca v xs
   | .setNth n _ v => vSetNth n v xs
   | .rplacd .. => vRplacd ys xs
